@@ -193,6 +193,6 @@ pub fn subs() -> Vec<Sub> {
         Sub { prop: "C12", name: "f64-exponents", rule: "all 2048 biased exponents x 4 mantissa patterns x sign",
               kind: Kind::Enumerate { quick: 2048 * 8, thorough: 2048 * 8, f: f64_exponents, complete_quick: true, complete_thorough: true } },
         Sub { prop: "C12", name: "f64-random", rule: "random / special f64 bit patterns (NaN payloads, subnormals, f32-representable): bit-exact round-trip, f32/f16 accessors refuse; distinct by bits",
-              kind: Kind::Random { quick: 400_000, thorough: 10_000_000, tape: 16, f: random_f64 } },
+              kind: Kind::Random { quick: 2_000_000, thorough: 10_000_000, tape: 16, f: random_f64 } },
     ]
 }
